@@ -501,7 +501,7 @@ def fresh_symbolic(name, shape, dtype="float", origin=None, finite=True, eng=Non
         def fn(idx):
             args = [to_z3(i) for i in idx]
             k = kf(*args)
-            eng.assume(z3.And(k >= -1, k <= 1))
+            eng.axiom(z3.And(k >= -1, k <= 1))
             return Num(uf(*args), k)
     a = Arr(tuple(shape), fn, dtype=dtype, origin=origin)
     a.uf = uf
@@ -585,9 +585,9 @@ class CompressInfo:
         self.seen = []
         self.i0 = z3.Int(eng.uniq("miss_" + tag))
         n, ns = self.n.t, to_z3(n_src)
-        eng.assume(z3.And(n >= 0, n <= ns))
+        eng.axiom(z3.And(n >= 0, n <= ns))
         # n < n_src  <->  some position fails the mask (witness i0)
-        eng.assume(z3.Implies(n < ns, z3.And(self.i0 >= 0, self.i0 < ns, z3.Not(zb(mask_fn(Num(self.i0)))))))
+        eng.axiom(z3.Implies(n < ns, z3.And(self.i0 >= 0, self.i0 < ns, z3.Not(zb(mask_fn(Num(self.i0)))))))
         self.eng = eng
 
     def at(self, k):
@@ -597,11 +597,11 @@ class CompressInfo:
         p = self.pos(kt)
         ns, n = to_z3(self.n_src), self.n.t
         inb = z3.And(kt >= 0, kt < n)
-        e.assume(z3.Implies(inb, z3.And(p >= 0, p < ns, zb(self.mask_fn(Num(p))), self.rank(p) == kt)))
-        e.assume(z3.Implies(z3.And(inb, n == ns), p == kt))
-        e.assume(z3.Implies(inb, p >= kt))
+        e.axiom(z3.Implies(inb, z3.And(p >= 0, p < ns, zb(self.mask_fn(Num(p))), self.rank(p) == kt)))
+        e.axiom(z3.Implies(z3.And(inb, n == ns), p == kt))
+        e.axiom(z3.Implies(inb, p >= kt))
         for (k2, p2) in self.seen:
-            e.assume(z3.Implies(z3.And(inb, k2 >= 0, k2 < n), z3.And((kt < k2) == (p < p2), (kt == k2) == (p == p2))))
+            e.axiom(z3.Implies(z3.And(inb, k2 >= 0, k2 < n), z3.And((kt < k2) == (p < p2), (kt == k2) == (p == p2))))
         if not any(kt.eq(k2) for k2, _ in self.seen):
             self.seen.append((kt, p))
         return Num(p)
@@ -612,9 +612,9 @@ class CompressInfo:
         e = cur()
         r = self.rank(it)
         ns, n = to_z3(self.n_src), self.n.t
-        e.assume(z3.Implies(z3.And(it >= 0, it < ns, zb(self.mask_fn(Num(it)))),
+        e.axiom(z3.Implies(z3.And(it >= 0, it < ns, zb(self.mask_fn(Num(it)))),
                             z3.And(r >= 0, r < n, self.pos(r) == it)))
-        e.assume(z3.Implies(z3.And(it >= 0, it < ns, zb(self.mask_fn(Num(it))), n == ns), r == it))
+        e.axiom(z3.Implies(z3.And(it >= 0, it < ns, zb(self.mask_fn(Num(it))), n == ns), r == it))
         return Num(r)
 
 
@@ -1034,7 +1034,7 @@ def reshape_copy(a, shape):
             e = cur()
             q = Num(z3.Int(e.uniq("q")))
             r = Num(z3.Int(e.uniq("r")))
-            e.assume(z3.And(to_z3(k) == q.t * to_z3(n1) + r.t, r.t >= 0, r.t < to_z3(n1)))
+            e.axiom(z3.Implies(to_z3(n1) > 0, z3.And(to_z3(k) == q.t * to_z3(n1) + r.t, r.t >= 0, r.t < to_z3(n1))))
             return f((q, r))
         return Arr(shape, fn, dtype=a.kind)
     if len(shape) == 2 and len(src) == 1:
